@@ -99,3 +99,26 @@ package tlstcp
 //@ func (*listener).Listen
 //@   ensures !isnil(result) && called("Listen") ==> !isnil(lerr)
 //@   ensures result == mangos.ErrTLSNoCert ==> !called("Listen")
+
+// ---- round 12: listener Accept / Close / Address ----
+//@ func (*listener).Accept
+//@   ghost wp = result0 at call:Wait#1
+//@   ghost we = result1 at call:Wait#1
+//@   ensures isnil(l.l) ==> result1 == mangos.ErrClosed && isnil(result0) && !called("Wait")
+//@   ensures !isnil(l.l) ==> called("Wait") && result0 == wp && result1 == we
+//@
+//@ func (*listener).Close
+//@   ensures isnil(result)
+//@
+//@ func (*listener).Close$1
+//@   ensures closed(l.closeQ) && called("Close")
+//@   before call:Close#1 assert !isnil(l.l)
+//@
+//@ func (*listener).Address
+//@   ghost bs = result at call:String#1
+//@   ensures isnil(l.bound) ==> result == "tls+tcp://" + l.addr
+//@   ensures !isnil(l.bound) ==> result == "tls+tcp://" + bs
+
+// ---- round 12: the scheme string ----
+//@ func (tlsTran).Scheme
+//@   ensures result == "tls+tcp"
